@@ -39,8 +39,24 @@ type Session struct {
 
 type Repo struct {
 	Blobs     map[string][]byte
+	// BlobMT: per blob, the media types it may be described with (only kept when Model.BlobMediaTypes):
+	// every type it was pushed or mounted into this repository with since it last was absent; "*" = any.
+	BlobMT map[string]map[string]bool
 	Manifests map[string]*Manifest
 	Tags      map[string]TagDesc
+}
+
+// addMT adds media types to the set blob d may be described with.
+func (r *Repo) addMT(d string, mts map[string]bool) {
+	if r.BlobMT == nil {
+		r.BlobMT = map[string]map[string]bool{}
+	}
+	if r.BlobMT[d] == nil {
+		r.BlobMT[d] = map[string]bool{}
+	}
+	for mt := range mts {
+		r.BlobMT[d][mt] = true
+	}
 }
 
 func (r *Repo) empty() bool { return len(r.Blobs) == 0 && len(r.Manifests) == 0 && len(r.Tags) == 0 }
@@ -57,6 +73,9 @@ type Model struct {
 	Lit map[string]int
 	// Lenient: an unknown upload id creates a session (ocimem's documented leniency).
 	Lenient bool
+	// BlobMediaTypes: also predict the media type in blob descriptors (direct in-memory registry only;
+	// the wire does not carry blob media types): it has to be one this repository was given for the blob.
+	BlobMediaTypes bool
 }
 
 func New(immutable bool) *Model {
@@ -64,11 +83,14 @@ func New(immutable bool) *Model {
 }
 
 func (m *Model) Clone() *Model {
-	c := &Model{Immutable: m.Immutable, Lenient: m.Lenient, Repos: make(map[string]*Repo, len(m.Repos))}
+	c := &Model{Immutable: m.Immutable, Lenient: m.Lenient, BlobMediaTypes: m.BlobMediaTypes, Repos: make(map[string]*Repo, len(m.Repos))}
 	for name, r := range m.Repos {
 		nr := &Repo{Blobs: make(map[string][]byte, len(r.Blobs)), Manifests: make(map[string]*Manifest, len(r.Manifests)), Tags: make(map[string]TagDesc, len(r.Tags))}
 		for k, v := range r.Blobs {
 			nr.Blobs[k] = v
+		}
+		for k, v := range r.BlobMT {
+			nr.addMT(k, v)
 		}
 		for k, v := range r.Manifests {
 			nr.Manifests[k] = v
@@ -321,6 +343,23 @@ func (v *verdict) expectDesc(out *Outcome, digest string, size int64, mediaType 
 	}
 }
 
+// expectBlobMT: the descriptor's media type is one this repository was given for the blob.
+func (v *verdict) expectBlobMT(m *Model, r *Repo, op *Op, out *Outcome) {
+	if !m.BlobMediaTypes {
+		return
+	}
+	set := r.BlobMT[op.Digest]
+	if set["*"] || set[out.MediaType] {
+		return
+	}
+	var given []string
+	for mt := range set {
+		given = append(given, mt)
+	}
+	sort.Strings(given)
+	v.add("semantics", "blob-mediatype", fmt.Sprintf("%s: descriptor media type %q; this repository was given the blob with %q only", v.op, out.MediaType, given))
+}
+
 func (v *verdict) expectData(out *Outcome, want []byte) {
 	if out.ReadErr != "" {
 		v.add("semantics", "read-error", fmt.Sprintf("%s: reading the content failed: %s", v.op, out.ReadErr))
@@ -400,6 +439,7 @@ func (m *Model) Apply(op *Op, out *Outcome) []Complaint {
 			if v.expectOK(out) {
 				v.expectDesc(out, op.Digest, n, "")
 				v.expectData(out, data[op.O0:o1])
+				v.expectBlobMT(m, r, op, out)
 			}
 			break
 		}
@@ -408,6 +448,7 @@ func (m *Model) Apply(op *Op, out *Outcome) []Complaint {
 			if op.Kind == "GetBlob" {
 				v.expectData(out, data)
 			}
+			v.expectBlobMT(m, r, op, out)
 		}
 	case "GetManifest", "ResolveManifest":
 		r, done := v.unknownRepo(m, out, op.Repo, "MANIFEST_UNKNOWN")
@@ -495,6 +536,7 @@ func (m *Model) Apply(op *Op, out *Outcome) []Complaint {
 			v.expectDesc(out, op.Digest, op.Size, "")
 		}
 		m.touch(op.Repo).Blobs[op.Digest] = append([]byte(nil), op.Data...)
+		m.touch(op.Repo).addMT(op.Digest, map[string]bool{op.MediaType: true})
 	case "Upload":
 		if !gram.ValidRepo(op.Repo) {
 			v.expectFail(out, "invalid-name", "code", "NAME_INVALID")
@@ -513,6 +555,7 @@ func (m *Model) Apply(op *Op, out *Outcome) []Complaint {
 			v.expectDesc(out, op.Digest, int64(len(all)), "")
 		}
 		r.Blobs[op.Digest] = all
+		r.addMT(op.Digest, map[string]bool{"*": true})
 	case "PushBlobChunked":
 		if !gram.ValidRepo(op.Repo) {
 			v.expectFail(out, "invalid-name", "code", "NAME_INVALID")
@@ -613,6 +656,7 @@ func (m *Model) Apply(op *Op, out *Outcome) []Complaint {
 			v.expectDesc(out, op.Digest, int64(len(s.Data)), "")
 		}
 		m.touch(s.Repo).Blobs[op.Digest] = s.Data
+		m.touch(s.Repo).addMT(op.Digest, map[string]bool{"*": true})
 	case "MountBlob":
 		var reasons, codes []string
 		validTo := gram.ValidRepo(op.Repo)
@@ -652,6 +696,7 @@ func (m *Model) Apply(op *Op, out *Outcome) []Complaint {
 			}
 		}
 		m.touch(op.Repo).Blobs[op.Digest] = data
+		m.touch(op.Repo).addMT(op.Digest, from.BlobMT[op.Digest])
 	case "PushManifest":
 		m.applyPushManifest(v, op, out)
 	case "DeleteBlob":
@@ -669,6 +714,7 @@ func (m *Model) Apply(op *Op, out *Outcome) []Complaint {
 		}
 		v.expectOK(out)
 		delete(r.Blobs, op.Digest)
+		delete(r.BlobMT, op.Digest)
 	case "DeleteManifest":
 		r, done := v.unknownRepo(m, out, op.Repo, "MANIFEST_UNKNOWN")
 		if done {
